@@ -398,10 +398,23 @@ namespace vr
         for (size_t i = from; i < to && i < lines.size(); ++i)
         {
             const std::string& l = lines[i];
-            size_t p             = l.find(" in ");
-            if (l.find("    #") != 0 || p == std::string::npos)
+            if (l.find("    #") != 0)
                 continue;
-            std::string f = l.substr(p + 4);
+            size_t p = l.find(" in ");
+            std::string f;
+            if (p != std::string::npos)
+                f = l.substr(p + 4);
+            else
+            {
+                // TSan style: "    #0 function /path/file:line (module+0x..)"
+                size_t sp = l.find(' ', 5);
+                if (sp == std::string::npos)
+                    continue;
+                f = l.substr(sp + 1);
+                size_t mod = f.rfind(" (");
+                if (mod != std::string::npos)
+                    f = f.substr(0, mod);
+            }
             // "func file:line" -> func
             size_t sp = f.rfind(' ');
             if (sp != std::string::npos && f.find('/', sp) != std::string::npos)
@@ -907,3 +920,9 @@ namespace vr
         return r.run();
     }
 } // namespace vr
+
+// Default (no-op) definition of the scheduling hook compiled into pistache under -DPISTACHE_VERIF; harnesses
+// that drive the cooperative scheduler define a strong one.
+#ifndef VR_OWN_VERIF_POINT
+extern "C" __attribute__((weak)) void pistache_verif_point(int, const void*) { }
+#endif
